@@ -295,6 +295,83 @@ def load_known():
     return d
 
 
+_churn_cache = {}
+
+
+def _norm_lines_py(src):
+    import ast as _ast
+    out = []
+    try:
+        tree = _ast.parse(src)
+    except SyntaxError:
+        return None
+
+    def walk(stmts):
+        for st in stmts:
+            if isinstance(st, _ast.Expr) and isinstance(st.value, _ast.Constant) and isinstance(st.value.value, str):
+                continue
+            if isinstance(st, (_ast.FunctionDef, _ast.AsyncFunctionDef, _ast.ClassDef)):
+                out.append("def " + st.name)
+                walk(st.body)
+                continue
+            body_fields = [f for f in ("body", "orelse", "finalbody") if isinstance(getattr(st, f, None), list)]
+            if body_fields:
+                head = _ast.dump(st.test, annotate_fields=False) if hasattr(st, "test") else type(st).__name__
+                if isinstance(st, _ast.For):
+                    head = "for " + _ast.unparse(st.target) + " in " + _ast.unparse(st.iter)
+                elif hasattr(st, "test"):
+                    head = type(st).__name__ + " " + _ast.unparse(st.test)
+                out.append(head)
+                for f in body_fields:
+                    walk(getattr(st, f))
+                for h in getattr(st, "handlers", []) or []:
+                    walk(h.body)
+            else:
+                out.append(_ast.unparse(st))
+    walk(tree.body)
+    return out
+
+
+def _norm_lines_c(src):
+    import re as _re
+    src = _re.sub(r"/\*.*?\*/", "", src, flags=_re.S)
+    src = _re.sub(r"//[^\n]*", "", src)
+    out = []
+    for l in src.splitlines():
+        l = _re.sub(r"\s+", "", l)
+        if l and l not in ("{", "}", "};"):
+            out.append(l)
+    return out
+
+
+def file_churn(relpath):
+    """number of normalised statements (python) / code lines (C, C++) in which the current file differs from /verif/baseline
+    (inserted + deleted, by difflib); None when the file or its baseline copy does not exist"""
+    if relpath in _churn_cache:
+        return _churn_cache[relpath]
+    import difflib
+    cur = os.path.join(REPO, relpath)
+    base = os.path.join(VERIF, "baseline", relpath)
+    n = None
+    if relpath and os.path.isfile(cur) and os.path.isfile(base):
+        a = open(base, encoding="utf-8", errors="replace").read()
+        b = open(cur, encoding="utf-8", errors="replace").read()
+        if a == b:
+            n = 0
+        else:
+            if relpath.endswith(".py"):
+                la, lb = _norm_lines_py(a), _norm_lines_py(b)
+            else:
+                la, lb = _norm_lines_c(a), _norm_lines_c(b)
+            if la is not None and lb is not None:
+                n = 0
+                for tag, i1, i2, j1, j2 in difflib.SequenceMatcher(None, la, lb, autojunk=False).get_opcodes():
+                    if tag != "equal":
+                        n += (i2 - i1) + (j2 - j1)
+    _churn_cache[relpath] = n
+    return n
+
+
 class Check:
     """Collects rule instances (obligations) of one property run."""
 
@@ -424,9 +501,36 @@ class Check:
             self.assumptions.append(text)
 
     # -- finishing ------------------------------------------------------
+    def _churn_gate(self, open_keys):
+        """A negative verdict is trusted only where the judged file is still close to the reviewed baseline.  When more than
+        VCHECK_CHURN (default 30) normalised statements / code lines of the file named by an instance's `where` differ from
+        /verif/baseline, the instance is reported as not recognised (exit 2: "this file was rewritten, re-review the rule
+        against it") instead of as a violation.  Passing instances are not affected; known findings are not affected."""
+        try:
+            limit = int(os.environ.get("VCHECK_CHURN", "30"))
+        except ValueError:
+            limit = 30
+        if limit <= 0:
+            return
+        keep = []
+        for o in self.obl:
+            if o["ok"] or (o["rule"], o["key"]) in open_keys:
+                keep.append(o)
+                continue
+            path = str(o.get("where") or "").split(":")[0]
+            n = file_churn(path)
+            if n is not None and n > limit:
+                o2 = dict(o)
+                o2["msg"] = o["msg"] + " [%s differs from the reviewed baseline in %d statements/lines (limit %d): a negative verdict is not given on a rewritten file]" % (path, n, limit)
+                self.unrecognised.append(o2)
+            else:
+                keep.append(o)
+        self.obl = keep
+
     def finish(self, write_evidence=True):
         known = load_known()
         open_k = [k for k in known["open"] if k.get("property") == self.pid]
+        self._churn_gate({(k.get("rule"), k.get("key")) for k in open_k})
         fails = [o for o in self.obl if not o["ok"]]
         if self.only is not None:
             fails = [o for o in fails if (o["rule"], o["key"]) == tuple(self.only)]
